@@ -68,7 +68,7 @@ isal_sm3_ctx_mgr_submit(ISAL_SM3_HASH_CTX_MGR *mgr, ISAL_SM3_HASH_CTX *ctx_in,
         *ctx_out = cp;
 
 #ifdef SAFE_PARAM
-        if (cp != NULL && cp->error != ISAL_HASH_CTX_ERROR_NONE) {
+        if (cp == ctx_in && cp->error != ISAL_HASH_CTX_ERROR_NONE) {
                 if (cp->error == ISAL_HASH_CTX_ERROR_INVALID_FLAGS)
                         return ISAL_CRYPTO_ERR_INVALID_FLAGS;
                 if (cp->error == ISAL_HASH_CTX_ERROR_ALREADY_PROCESSING)
